@@ -139,3 +139,34 @@ class Run:
             % (self.pid, self.tier, len(self.obls), ev["coverage"]["discharged"], len(old), len(new), len(self.functions), ev["wall_s"])
         )
         return status
+
+
+class Remap:
+    """view of a Run that renames rule ids and drops the obligations of all other rules: lets a
+    property re-use the rule bodies of another property under its own rule ids."""
+
+    def __init__(self, R, mapping):
+        self._R = R
+        self._m = mapping
+
+    def __getattr__(self, n):
+        return getattr(self._R, n)
+
+    def rule(self, rid, text):
+        return None
+
+    def assume(self, text):
+        return None
+
+    def ob(self, rule, instance, ok, detail="", loc=None, fn=None, found=None):
+        if rule in self._m:
+            return self._R.ob(self._m[rule], instance, ok, detail, loc, fn, found)
+        return bool(ok)
+
+    def floor(self, rule, what, count, minimum):
+        if rule in self._m:
+            return self._R.floor(self._m[rule], what, count, minimum)
+
+    def info(self, rule, text):
+        if rule in self._m:
+            return self._R.info(self._m[rule], text)
